@@ -265,7 +265,7 @@ class CoordinateComponent(Component):
             # If the view is a tuple or list of arrays, we should actually just
             # convert these straight to world coordinates since the indices
             # of the pixel coordinates are the pixel coordinates themselves.
-            if isinstance(view, (tuple, list)) and isinstance(view[0], np.ndarray):
+            if isinstance(view, (tuple, list)) and len(view) > 0 and isinstance(view[0], np.ndarray):
                 axis = self._data.ndim - 1 - self.axis
                 return pixel2world_single_axis(self._data.coords, *view[::-1],
                                                world_axis=axis)
